@@ -56,14 +56,30 @@ def run (ctx):
   addev = g.nodes_with_call(lambda c: call_name(c) in ('raiseEventNoErrors', 'raiseEvent') and len(c.args) >= 2 and norm(c.args[0]) == 'LinkEvent' and norm(c.args[1]) == 'True')
   anyev = g.nodes_with_call(lambda c: call_name(c) in ('raiseEventNoErrors', 'raiseEvent') and c.args and norm(c.args[0]) == 'LinkEvent')
   ctx.floor('link-added raise site', len(addev), 1)
+  def absent_test (t):
+    return isinstance(t, ast.Compare) and len(t.ops) == 1 and isinstance(t.ops[0], (ast.NotIn, ast.In)) and norm(t.comparators[0]) == 'self.adjacency'
   for e in addev:
-    fs = q.fact_strs(g, e)
-    good = 'link not in self.adjacency' in fs
-    ctx.ob('R-DOM', pin, "a link is announced as added only when it was not yet in the adjacency", good, "under `link not in self.adjacency`" if good else
-           "LinkEvent(True) is raised without the not-yet-known test (facts %s): every refreshing probe announces the link again" % [f for f in fs if 'adjacency' in f], (dmod, e.ast), 'D1')
-    first = [i for i in ins if 'link not in self.adjacency' in q.fact_strs(g, i)]
-    good = bool(first) and any(g.dominates(i, e) or g.postdominates(i, e) for i in first)
-    ctx.ob('R-EFFECT', pin, "the announcement goes together with the insert", good, "insert and raise on the same branch" if good else "link announced but not stored (or vice versa)", (dmod, e.ast), 'D1')
+    # the raise is guarded by `X not in self.adjacency`, tested before this packet's own insert: either directly, or through
+    # a flag that was computed from that test before the insert ran
+    good = False; key = None; how = ''
+    for t_, pol_, b_ in g.guards(e):
+      if isinstance(t_, (ast.For, ast.AsyncFor)): continue
+      if absent_test(t_) and (pol_ == isinstance(t_.ops[0], ast.NotIn)):
+        # direct test: no insert may lie between the test and ... the test itself decides; fine
+        good = True; key = norm(t_.left); how = "under `%s`" % norm(t_)
+      elif isinstance(t_, ast.Name) and pol_:
+        d = q.single_def(pin.node, t_.id)
+        if d is not None and absent_test(d) and isinstance(d.ops[0], ast.NotIn):
+          dn = [n for n in g.nodes if n.kind == 'stmt' and isinstance(n.ast, ast.Assign) and n.ast.value is d]
+          # the flag must be computed before any insert can have run
+          if dn and not any(dn[0] in g.reachable(i) for i in ins if i is not None):
+            good = True; key = norm(d.left); how = "under flag `%s = %s` computed before the insert" % (t_.id, norm(d))
+    ctx.ob('R-DOM', pin, "a link is announced as added only when it was not yet in the adjacency", good, how if good else
+           "LinkEvent(True) is raised without the not-yet-known test (facts %s): every refreshing probe announces the link again" % [f for f in q.fact_strs(g, e) if 'adjacency' in f], (dmod, e.ast), 'D1')
+    # the announcement goes together with the insert: on every path that raises, an insert of the same key happens
+    same = [i for i in ins if i is not None and (g.dominates(i, e) or g.postdominates(i, e))]
+    good = bool(same)
+    ctx.ob('R-EFFECT', pin, "the announcement goes together with the insert", good, "insert and raise on the same paths" if good else "link announced but not stored (or vice versa)", (dmod, e.ast), 'D1')
     c = [c for c in q.node_calls(e) if c.args and norm(c.args[0]) == 'LinkEvent'][0]
     ctx.ob('R-AGREE', pin, "the announced link is the stored one", len(c.args) >= 3 and norm(c.args[2]) == 'link', norm(c)[:70], (dmod, c), 'D1')
   for e in anyev:
@@ -82,6 +98,11 @@ def run (ctx):
       lo = [(s_, h, a) for (s_, h, a) in loops if n in g2.loop_body_nodes(h)]
       good = len(lo) == 1 and norm(lo[0][0].iter) == lp and not [x for x in g2.nodes if x.kind in ('break', 'return') and x in g2.reachable(lo[0][1]) and any(m is lo[0][2] for m, l in x.succ)]
       per = g2.interval(lambda x: x is n, start=[b for b in g2.nodes if b.kind == 'branch' and lo and b.label[0] is lo[0][0] and b.label[1] is True][0], stop=lo[0][1]) if lo else None
+      if per == (0, 1) and lo and what == 'popped':
+        # `if link in self.adjacency: del self.adjacency[link]` is pop(link, None) spelled out
+        inner = [(t_, pol_) for t_, pol_, b_ in g2.guards(n) if not isinstance(t_, (ast.For, ast.AsyncFor)) and g2.dominates(lo[0][1], b_)]
+        if len(inner) == 1 and inner[0][1] and isinstance(inner[0][0], ast.Compare) and isinstance(inner[0][0].ops[0], ast.In) and norm(inner[0][0].comparators[0]) == 'self.adjacency' \
+           and norm(inner[0][0].left) == norm(lo[0][0].target): per = (1, 1)
       ctx.ob('R-ALL', dl, "every withdrawn link is %s exactly once" % what, good and per == (1, 1), "for link in %s: once per link" % lp if good and per == (1, 1) else
              "`%s` is not executed once for every link of `%s` (loop %s, per-iteration count %s): links are %s for only some of the withdrawn links" % (n.text(40), lp, [norm(l[0].iter) for l in lo], per, what), (dmod, n.ast), 'D1')
   for e in rmev:
@@ -100,20 +121,36 @@ def run (ctx):
   ctx.ob('R-OWN', disc.qual, "link removal is announced only by _delete_links", not others, "single site" if not others else "%s also announces removals" % others[0][0].qual, disc, 'D1')
   # callers pass links drawn from the adjacency
   for f in disc.methods.values():
+    cl_ = None
     for c in calls_in(f.node, nested=True):
       if call_name(c) == '_delete_links' and c.args:
         a = c.args[0]
         src = a if isinstance(a, ast.ListComp) else (q.single_def(f.node, a.id) if isinstance(a, ast.Name) else None)
         good = isinstance(src, ast.ListComp) and 'self.adjacency' in norm(src.generators[0].iter)
-        ctx.ob('R-AGREE', f, "withdrawn links are drawn from the adjacency", good, norm(src.generators[0].iter) if good else "argument `%s` is not a selection from self.adjacency" % norm(a), (dmod, c), 'D1')
-  # ConnectionDown: either end
-  lc = [n for n in ast.walk(cdown.node) if isinstance(n, ast.ListComp)]
-  if lc:
-    cond = lc[0].generators[0].ifs[0] if lc[0].generators[0].ifs else None
-    ev = cdown.params[1]
-    good = cond is not None and isinstance(cond, ast.BoolOp) and isinstance(cond.op, ast.Or) and {norm(v) for v in cond.values} == {'link.dpid1 == %s.dpid' % ev, 'link.dpid2 == %s.dpid' % ev}
-    ctx.ob('R-AGREE', cdown, "a disconnected switch's links are withdrawn in both directions", good, norm(cond) if good else
-           "the selection is `%s`: links pointing *to* (or from) the lost switch stay in the adjacency" % norm(cond), (dmod, lc[0]), 'D1')
+        if not good and isinstance(a, ast.Name):
+          if cl_ is None: cl_ = q.collected_lists(f)
+          good = any(L_.name == a.id and 'self.adjacency' in norm(L_.it) and norm(L_.elt) in [norm(x) for x in ast.walk(L_.var) if isinstance(x, ast.Name)] + [norm(L_.var)] for L_ in cl_)
+        ctx.ob('R-AGREE', f, "withdrawn links are drawn from the adjacency", good, "selection from self.adjacency" if good else "argument `%s` is not a selection from self.adjacency" % norm(a), (dmod, c), 'D1')
+  # ConnectionDown: either end - decided by evaluation on a sample adjacency: with links 1->2, 2->3, 3->4, 2->1 and switch 2
+  # lost, exactly the three links that touch switch 2 are withdrawn (comprehension, loop-with-continue, helper: all alike)
+  gcd = q.cfg_of(cdown); ev = cdown.params[1]
+  L12, L23, L34, L21 = q.Rec(dpid1=1, port1=7, dpid2=2, port2=2), q.Rec(dpid1=2, port1=7, dpid2=3, port2=2), q.Rec(dpid1=3, port1=2, dpid2=4, port2=2), q.Rec(dpid1=2, port1=8, dpid2=1, port2=2)
+  dcall = gcd.nodes_with_call(lambda c: call_name(c) == '_delete_links' and c.args)
+  if dcall:
+    c_ = [c for c in q.node_calls(dcall[0]) if call_name(c) == '_delete_links'][0]
+    vals = q.values_at(repo, dmod, gcd, q.Env({'self.adjacency': [L12, L23, L34, L21], ev + '.dpid': 2}), dcall[0], c_.args[0], disc)
+    got = None
+    if len(vals) == 1:
+      v_ = list(vals)[0]
+      if isinstance(v_, str) and v_.startswith('['): got = v_
+    want = repr([L12, L23, L21])
+    if vals == {'?'} or got is None and not all(isinstance(x, str) for x in vals):
+      ctx.undecided('R-AGREE', cdown, "a disconnected switch's links are withdrawn in both directions", "selection could not be evaluated on the sample adjacency", cdown, 'D1')
+    else:
+      good = got == want
+      ctx.ob('R-AGREE', cdown, "a disconnected switch's links are withdrawn in both directions", good, "links 1->2, 2->3, 2->1 selected for switch 2; 3->4 kept" if good else
+             "on the sample adjacency {1->2, 2->3, 3->4, 2->1} losing switch 2 withdraws %s: links pointing *to* (or from) the lost switch stay in the adjacency, or links of other switches are withdrawn "
+             "(a port number equal to the dpid must not select a link)" % (got,), cdown, 'D1')
   else: ctx.undecided('R-AGREE', cdown, "links of a lost switch", "selection not found", cdown, 'D1')
   lc = [n for n in ast.walk(exp.node) if isinstance(n, ast.ListComp)]
   if lc:
@@ -133,14 +170,45 @@ def run (ctx):
   for t, v, st, k in q.stores_in(mk.node):
     if isinstance(t, ast.Attribute) and v is not None: wsrc[norm(t)] = v
   cid = wsrc.get('chassis_id.id'); sdp = wsrc.get('sysdesc.payload')
-  WR = "('dpid:' + hex(int(dpid))[2:]).encode()"
-  ctx.ob('R-AGREE', mk, "probe carries the datapath id as 'dpid:' + hex digits (chassis id)", cid is not None and norm(cid) == WR, norm(cid) if cid is not None else "?", mk, 'D2')
-  ctx.ob('R-AGREE', mk, "probe carries the datapath id as 'dpid:' + hex digits (system description)", sdp is not None and norm(sdp) == WR, norm(sdp) if sdp is not None else "?", mk, 'D2')
+  # decided by evaluation: for dpid 0x1a2b3c the text written is b'dpid:1a2b3c' (what the reader's startswith / [5:] / base-16 expects)
+  gmk = q.cfg_of(mk)
+  def written (e):
+    if e is None: return None
+    st_ = [st for t, v, st, k in q.stores_in(mk.node) if v is e]
+    n_ = q.enclosing_stmt_node(gmk, st_[0]) if st_ else None
+    if n_ is None: return None
+    return q.values_at(repo, dmod, gmk, q.Env({mk.params[0]: 0x1a2b3c}), n_, e, None)
+  for what, e_ in (("chassis id", cid), ("system description", sdp)):
+    vals = written(e_)
+    good = vals == {b'dpid:1a2b3c'}
+    ctx.ob('R-AGREE', mk, "probe carries the datapath id as 'dpid:' + hex digits (%s)" % what, good, "dpid 0x1a2b3c -> b'dpid:1a2b3c'" if good else
+           "for dpid 0x1a2b3c the %s TLV carries %s; the receiving side expects b'dpid:' followed by the hex digits" % (what, sorted(map(repr, vals)) if vals else norm(e_) if e_ is not None else '?'), mk, 'D2')
   pidc = [c for c in calls_in(mk.node) if call_name(c) == 'port_id']
   good = bool(pidc) and norm(kwarg(pidc[0], 'id')) == 'str(port_num)' and 'SUB_PORT' in norm(kwarg(pidc[0], 'subtype'))
   ctx.ob('R-AGREE', mk, "probe carries the port number as decimal text", good, norm(pidc[0]) if pidc else "?", mk, 'D2')
-  order = [norm(c.args[0]) for c in sorted(calls_in(mk.node), key=lambda c: (c.lineno, c.col_offset)) if call_name(c) == 'append' and 'tlvs' in norm(c.func.value)]
-  ctx.ob('R-AGREE', mk, "TLV order is chassis id, port id, ttl, system description, end", order[:4] == ['chassis_id', 'port_id', 'ttl', 'sysdesc'] and 'end_tlv' in order[-1], " ".join(order), mk, 'D2')
+  # the TLVs in the order they are appended (a loop over a literal tuple counts element by element), each named by the
+  # constructor that built it
+  def ctor_of (e):
+    if isinstance(e, ast.Call): return call_name(e)
+    if isinstance(e, ast.Name):
+      d = q.single_def(mk.node, e.id)
+      if isinstance(d, ast.Call): return call_name(d)
+    return norm(e)
+  order = []
+  def walk_ (body):
+    for st_ in body:
+      if isinstance(st_, ast.For) and isinstance(st_.iter, (ast.Tuple, ast.List)) and isinstance(st_.target, ast.Name):
+        for el in st_.iter.elts:
+          for c in calls_in(st_):
+            if call_name(c) == 'append' and 'tlvs' in norm(c.func.value) and c.args and norm(c.args[0]) == st_.target.id: order.append(ctor_of(el))
+      elif isinstance(st_, ast.Expr) and isinstance(st_.value, ast.Call) and call_name(st_.value) == 'append' and 'tlvs' in norm(st_.value.func.value) and st_.value.args:
+        order.append(ctor_of(st_.value.args[0]))
+      elif isinstance(st_, ast.Expr) and isinstance(st_.value, ast.Call) and call_name(st_.value) == 'extend' and 'tlvs' in norm(st_.value.func.value) and st_.value.args and isinstance(st_.value.args[0], (ast.Tuple, ast.List)):
+        order.extend(ctor_of(el) for el in st_.value.args[0].elts)
+      elif isinstance(st_, (ast.If, ast.With, ast.Try)):
+        for f_ in ('body', 'orelse', 'finalbody'): walk_(getattr(st_, f_, []) or [])
+  walk_(mk.node.body)
+  ctx.ob('R-AGREE', mk, "TLV order is chassis id, port id, ttl, system description, end", order == ['chassis_id', 'port_id', 'ttl', 'system_description', 'end_tlv'], " ".join(order), mk, 'D2')
   # reader
   nested = q.nested_defs(pin.node)
   lk = nested.get('lookInSysDesc')
@@ -181,27 +249,56 @@ def run (ctx):
   if ut is None or cst is None: raise AnalysisError("spanning_tree._update_tree/_calc_spanning_tree vanished")
   ctx.analysed(ut); ctx.analysed(cst)
   g3 = q.cfg_of(ut)
-  fl = [(v, st) for t, v, st, k in q.stores_in(ut.node) if isinstance(t, ast.Name) and t.id == 'flood']
-  good = len(fl) == 2 and any(norm(v) == 'p.port_no in tree_ports' for v, st in fl) and any(isinstance(v, ast.Constant) and v.value is True for v, st in fl)
-  edge = [st for v, st in fl if isinstance(v, ast.Constant)]
-  if good and edge:
-    n = q.enclosing_stmt_node(g3, edge[0]); fs = q.fact_strs(g3, n)
-    good = any('is_edge_port(sw, p.port_no)' in f and f.endswith(':truthy') for f in fs) and 'flood:falsy' in fs
-  ctx.ob('R-AGREE', ut, "flooding stays enabled on tree ports and on host-facing (edge) ports", good, "flood = in tree or is_edge_port" if good else "flood computation changed: %s" % [norm(st) for v, st in fl], ut, 'D3')
+  # decided by evaluation over (port in tree?, edge port?): the NO_FLOOD bit sent must be clear iff the port is a tree
+  # port or an edge port; the port-mod is reached exactly when the remembered bit differs
+  noflood = repo.try_const(smod, ast.parse('of.OFPPC_NO_FLOOD', mode='eval').body, None)
+  pmn = g3.nodes_with_call(lambda c: call_name(c) == 'ofp_port_mod')
+  def scen (in_tree, is_edge, remembered_same=False):
+    ms = [((lambda e: isinstance(e, ast.Compare) and len(e.ops) == 1 and isinstance(e.ops[0], ast.In) and 'tree' in norm(e.comparators[0])), in_tree),
+          ((lambda e: isinstance(e, ast.Compare) and len(e.ops) == 1 and isinstance(e.ops[0], ast.NotIn) and 'tree' in norm(e.comparators[0])), not in_tree),
+          ((lambda e: isinstance(e, ast.Call) and call_name(e) == 'is_edge_port'), is_edge),
+          ((lambda e: isinstance(e, ast.Compare) and '_prev' in norm(e.left) and isinstance(e.ops[0], (ast.Is, ast.Eq))), remembered_same),
+          ((lambda e: isinstance(e, ast.Compare) and '_prev' in norm(e.left) and isinstance(e.ops[0], (ast.IsNot, ast.NotEq))), not remembered_same),
+          ((lambda e: isinstance(e, ast.Compare) and norm(e.left).endswith('port_no') and 'OFPP_MAX' in norm(e.comparators[0]) and isinstance(e.ops[0], (ast.Lt,))), True),
+          ((lambda e: isinstance(e, ast.Compare) and norm(e.left).endswith('port_no') and 'OFPP_MAX' in norm(e.comparators[0]) and isinstance(e.ops[0], (ast.GtE, ast.Gt))), False),
+          ((lambda e: isinstance(e, ast.Compare) and isinstance(e.ops[0], ast.Is) and norm(e.comparators[0]) == 'None'), False),
+          ((lambda e: isinstance(e, ast.Name) and e.id == '_hold_down'), False)]
+    return q.Env({'tree': {'<sw>': [('x', 1)]}}, ms)
+  res = {}
+  if pmn and isinstance(noflood, int):
+    c_ = [c for c in q.node_calls(pmn[0]) if call_name(c) == 'ofp_port_mod'][0]
+    cfg_ = kwarg(c_, 'config')
+    for it in (True, False):
+      for ie in (True, False):
+        res[(it, ie)] = q.values_at(repo, smod, g3, scen(it, ie), pmn[0], cfg_, None, limit=200) if cfg_ is not None else {'?'}
+    good = all(res[(it, ie)] == {0 if (it or ie) else noflood} for it in (True, False) for ie in (True, False))
+    ctx.ob('R-AGREE', ut, "flooding stays enabled on tree ports and on host-facing (edge) ports", good,
+           "NO_FLOOD clear iff tree port or edge port (4 cases evaluated)" if good else
+           "NO_FLOOD bit sent by (in tree, edge port): %s - expected 0 when either holds, %d otherwise" % (dict((k_, sorted(map(str, v_))) for k_, v_ in res.items()), noflood), ut, 'D3')
+  else:
+    ctx.undecided('R-AGREE', ut, "flooding stays enabled on tree ports and on host-facing (edge) ports", "port-mod site / NO_FLOOD constant not found", ut, 'D3')
   tp = q.single_def(ut.node, 'tree_ports')
   ctx.ob('R-AGREE', ut, "tree ports are the port numbers of the switch's tree links", tp is not None and norm(tp) == '[p[1] for p in ports]', norm(tp) if tp is not None else "?", ut, 'D3')
   pm = [c for c in calls_in(ut.node) if call_name(c) == 'ofp_port_mod']
   if pm:
     c = pm[0]
-    good = norm(kwarg(c, 'mask')) == 'of.OFPPC_NO_FLOOD' and norm(kwarg(c, 'config')) == '0 if flood else of.OFPPC_NO_FLOOD' and norm(kwarg(c, 'port_no')) == 'p.port_no' and norm(kwarg(c, 'hw_addr')) == 'p.hw_addr'
+    good = norm(kwarg(c, 'mask')) == 'of.OFPPC_NO_FLOOD' and kwarg(c, 'config') is not None and norm(kwarg(c, 'port_no')).endswith('.port_no') and norm(kwarg(c, 'hw_addr')).endswith('.hw_addr') \
+           and norm(kwarg(c, 'port_no')).split('.')[0] == norm(kwarg(c, 'hw_addr')).split('.')[0]
     ctx.ob('R-AGREE', ut, "port-mod sets exactly the NO_FLOOD bit, cleared when flooding is wanted", good, norm(c)[:110] if good else "port-mod is %s" % norm(c)[:140], (smod, c), 'D3')
-  sk = [n for n in g3.nodes if n.kind == 'continue' and any('_prev[sw][p.port_no] is flood' in f for f in q.fact_strs(g3, n))]
-  ctx.ob('R-DOM', ut, "a port-mod is skipped only when the remembered bit equals the new one", bool(sk), "continue under _prev[sw][port] is flood", ut, 'D3')
+  if pmn:
+    reach_same = pmn[0] in q.reach_under_cp(repo, smod, g3, scen(True, False, remembered_same=True), None)
+    reach_diff = pmn[0] in q.reach_under_cp(repo, smod, g3, scen(True, False, remembered_same=False), None)
+    ctx.ob('R-DOM', ut, "a port-mod is skipped only when the remembered bit equals the new one", reach_diff and not reach_same,
+           "sent iff the remembered bit differs" if reach_diff and not reach_same else "port-mod reachable with equal remembered bit: %s, with a different one: %s" % (reach_same, reach_diff), ut, 'D3')
   upd = [q.enclosing_stmt_node(g3, st) for t, v, st, k in q.stores_in(ut.node) if norm(t) == '_prev[sw][p.port_no]' and v is not None and norm(v) == 'flood']
   snd_ = g3.nodes_with_call(lambda c: call_name(c) == 'send')
   ctx.ob('R-EFFECT', ut, "the remembered bit is updated whenever a port-mod is sent", bool(upd) and bool(snd_) and (g3.dominates(upd[0], snd_[0]) or g3.postdominates(upd[0], snd_[0])), "_prev updated with the send", ut, 'D3')
-  phys = [n for n in g3.nodes if n.kind == 'cond' and norm(n.ast) == 'p.port_no < of.OFPP_MAX']
-  ctx.ob('R-DOM', ut, "only physical ports are touched", bool(phys) and bool(snd_) and any('p.port_no < of.OFPP_MAX' in f for f in q.fact_strs(g3, snd_[0])), "under port_no < OFPP_MAX", ut, 'D3')
+  if pmn:
+    # unreachable for a virtual port (port_no >= OFPP_MAX), whichever way the test is written
+    msv = [((lambda e: isinstance(e, ast.Compare) and norm(e.left).endswith('port_no') and 'OFPP_MAX' in norm(e.comparators[0]) and isinstance(e.ops[0], (ast.Lt,))), False),
+           ((lambda e: isinstance(e, ast.Compare) and norm(e.left).endswith('port_no') and 'OFPP_MAX' in norm(e.comparators[0]) and isinstance(e.ops[0], (ast.GtE, ast.Gt))), True)]
+    virt = pmn[0] in q.reach_under(repo, smod, g3, q.Env({}, msv), None)
+    ctx.ob('R-DOM', ut, "only physical ports are touched", not virt, "port-mod unreachable for port_no >= OFPP_MAX" if not virt else "a port-mod can be sent for a virtual port number", ut, 'D3')
   # ---- D4 symmetric choice -----------------------------------------------------------------------------------
   g4 = q.cfg_of(cst)
   w12 = [(st, v) for t, v, st, k in q.stores_in(cst.node, nested=False) if norm(t) == 'adj[s1][s2]' and v is not None]
